@@ -62,7 +62,8 @@ Whole(f, c)  == f = Dest0(c) \/ f = NewPfx(c.size)
 PostCreate(d, f)   == [d EXCEPT ![f] = NewPfx(0)]                       \* open(O_CREAT|O_TRUNC) = fd
 PostWrite(d, f, m) == IF m = 0 THEN d
                       ELSE [d EXCEPT ![f] = IF @.k = "new" THEN NewPfx(@.n + m) ELSE Torn]
-PostRename(d)      == [dest |-> d.tmp, tmp |-> Absent]                  \* rename(tmp, dest) = 0
+PostRenameG(d, f, g) == IF f = g THEN d ELSE [d EXCEPT ![g] = d[f], ![f] = Absent]   \* rename(f, g) = 0
+PostRename(d)      == PostRenameG(d, "tmp", "dest")
 PostUnlink(d, f)   == [d EXCEPT ![f] = Absent]
 
 (* the property on a disk / a returned result *)
@@ -214,7 +215,7 @@ SinkWrite(res, m) ==
           /\ nxt' = IF pend - m = 0 THEN nxt + 1 ELSE nxt
           /\ UNCHANGED <<pc, failed, ret>>
      ELSE /\ res \in {"err", "zero"}
-          /\ sink' = [sink EXCEPT !.failed = TRUE]
+          /\ sink' = [sink EXCEPT !.bad = TRUE]
           /\ pend' = 0 /\ UNCHANGED nxt
           /\ IF Deviant = "unwrap"
              THEN ret' = "panic" /\ pc' = "done" /\ UNCHANGED failed
@@ -237,7 +238,7 @@ InitWith(c, p) ==
   /\ cfg = c
   /\ env = [plan |-> p, calls |-> 0, writes |-> 0]
   /\ disk = [dest |-> Dest0(c), tmp |-> Absent]
-  /\ sink = [got |-> 0, failed |-> FALSE]
+  /\ sink = [got |-> 0, bad |-> FALSE]
   /\ pc = IF c.mode = "sink" \/ c.buildFirst THEN "build" ELSE "create"
   /\ nxt = 1 /\ buf = 0 /\ pend = 0 /\ phase = "direct" /\ failed = FALSE /\ ret = "none"
 
@@ -249,7 +250,7 @@ AllOrNothing  == cfg.mode = "path" => AllOrNothingD(ret, disk, cfg)
 (* the call returns (ok or err), it does not panic - path and sink *)
 ErrorNotPanic == ret # "none" => ReturnsD(ret)
 (* a failing caller-supplied writer: its error is what the call returns *)
-SinkErrorReturned == cfg.mode = "sink" => /\ (sink.failed /\ ret # "none") => ret = "err"
+SinkErrorReturned == cfg.mode = "sink" => /\ (sink.bad /\ ret # "none") => ret = "err"
                                           /\ ret = "ok" => sink.got = cfg.size
 (* why it holds: nothing is still in the buffer when success is reported, the destination is only ever
    touched by the rename, a failure is never forgotten *)
